@@ -42,10 +42,15 @@ Definition agrees (cls : N) (final : fs) (r : res fs) : bool :=
   | Unmodelled => true
   end.
 
+(** nested [if]s: the virtual machine is call-by-value, later orders are evaluated only when the
+    earlier ones disagree *)
 Definition case_ok (c : commit_case) : bool :=
   let '(_, _, _, _, _, _, _, (cls, final)) := c in
   let f := tree_of_r final in
-  existsb (agrees cls f) [run_commit c false false; run_commit c true false; run_commit c false true; run_commit c true true].
+  if agrees cls f (run_commit c false false) then true
+  else if agrees cls f (run_commit c true true) then true
+  else if agrees cls f (run_commit c true false) then true
+  else agrees cls f (run_commit c false true).
 
 Definition mismatches_commit (cs : list commit_case) : list N :=
   map (fun c => let '(id, _, _, _, _, _, _, _) := c in id) (filter (fun c => negb (case_ok c)) cs).
